@@ -1,5 +1,6 @@
 import Amgcl.Driver.Util
 import Amgcl.Model.CuthillMcKee
+import Amgcl.Model.SkylineLU
 /-!
 Handlers for the Cuthill–McKee part of C16 (harness/h_cmk.cpp): the faithful model `CMK.get` of
 `amgcl::reorder::cuthill_mckee<rev>::get` is run on the same sparsity pattern as the real code and prints the
@@ -10,8 +11,9 @@ permutation, so that the correspondence is EQUALITY of the permutation.
                                 is set, rows in increasing column order
 * `direct_cmk_pats rev n k code₁ … code_k`   the same for `k` patterns in one request (result lines concatenated)
 
-* `direct_sky_empty kind`      `skyline_lu` (kind 0) / `amg` (kind 1) on a 0×0 system: nothing to compute, the answer is `ok`
-                                (the harness checks that the real code survives)
+* `direct_sky_empty kind`      `skyline_lu` (kind 0) / `amg` (kind 1, = its coarsest-level `skyline_lu`) on a 0×0 system:
+                                `CMK.get` + `Skyline.constructAndSolve` on the empty matrix (the harness checks that the
+                                real code survives)
 
 Result line: `ok n p₀ … p_{n-1}` (`ok 0` for the empty matrix) or one of the outcomes `oob`, `precondition`, `fuel`.
 -/
@@ -47,7 +49,18 @@ def handle (op : String) (args : List String) : Option String :=
       if !(rev ≤ 1 && n ≤ 7 && codes.all (fun code => decide (code < 2 ^ (n * n)))) then badInput else
       joinSp (codes.map fun code => run rev (patMatrix n code))
   | "direct_sky_empty" =>
-    withArgs pNat args fun kind => if kind ≤ 1 then "ok" else badInput
+    withArgs pNat args fun kind =>
+      if kind > 1 then badInput else
+      -- constructor of `skyline_lu` on the empty matrix with its default ordering, then `operator()` on empty vectors
+      let A : CRS Rat := ⟨0, #[]⟩
+      match CMK.get false A #[] with
+      | .ok perm =>
+        match Skyline.constructAndSolve (V := Rat) (R := Rat) (fun v => v == 0) (fun v => 1 / v) A perm none #[] #[] with
+        | .ok (_, x) => if x.size == 0 then "ok" else "bad-size"
+        | .precondition => "precondition"
+      | .precondition => "precondition"
+      | .oob => "oob"
+      | .fuel => "fuel"
   | _ => none
 
 end Amgcl.Driver.Cmk
